@@ -218,6 +218,53 @@ def withCleanup (x : RM Unit) (c : RC → RC) : RM Unit := fun rc0 out0 =>
   match x rc0 out0 with
   | .ok () rc1 out1 => .ok () (c rc1) out1
   | r => r
+/-- enter a scope, run `x`, leave it: `enter` prepares the state, `leave saved after` computes the state
+    that is handed on from the state saved before entering and the one `x` ended in.  An error result is
+    handed on as it is (nothing is restored: the render is over). -/
+def bracket {α : Type} (enter : RC → RC) (x : RM α) (leave : RC → RC → RC) : RM α := fun rc0 out0 =>
+  match x (enter rc0) out0 with
+  | .ok a rc1 out1 => .ok a (leave rc0 rc1) out1
+  | r => r
+/-- a state update that leaves the FRAME alone – scope stack, escaping, indentation string and the
+    `@partial-block` binding are copied back from the state before.  Every plain update in the renderer
+    is one of these (write-state flags, template name, inline partials, local helpers, the replaced
+    context, the harness's counter); the frame is changed only by the bracketing combinators below. -/
+def modifyAux (f : RC → RC) : RM Unit :=
+  modify (fun rc =>
+    let n := f rc
+    { n with blocks := rc.blocks, disableEscape := rc.disableEscape, indentString := rc.indentString,
+             pbStack := rc.pbStack, pbBinding := rc.pbBinding })
+/-- run `x` with one more block on the scope stack (`push_block` … `pop_block`) -/
+def withBlock {α : Type} (b : Block) (x : RM α) : RM α :=
+  bracket (fun rc => { rc with blocks := b :: rc.blocks }) x (fun _ rc => { rc with blocks := rc.blocks.drop 1 })
+/-- `set_disable_escape(true)` … `set_disable_escape(false)` of `{{{ }}}` / `{{& }}` -/
+def escOffReset {α : Type} (x : RM α) : RM α :=
+  bracket (fun rc => { rc with disableEscape := true }) x (fun _ rc => { rc with disableEscape := false })
+/-- escaping off for the duration of a subexpression call, then put back to what it was -/
+def escOffSaved {α : Type} (x : RM α) : RM α :=
+  bracket (fun rc => { rc with disableEscape := true }) x (fun saved rc => { rc with disableEscape := saved.disableEscape })
+/-- the scope of a partial inclusion (`expand_partial`): a fresh scope stack holding the merged context,
+    the partial's indentation, the block body (if any) as what `@partial-block` denotes – inside a
+    `{{> @partial-block}}` body it first falls back to what it meant where the body was written –
+    and everything, the template name included, put back afterwards -/
+def partialScope (isPartialBlock : Bool) (merged : Json) (indent : Option Str) (pb : Option Tmpl) (x : RM Unit) : RM Unit :=
+  bracket
+    (fun rc =>
+      let rc := if isPartialBlock then
+          { rc with pbBinding := (rc.pbBinding.bind (fun i => rc.pbStack[i]?)).bind (·.2) }
+        else rc
+      let rc := { rc with blocks := [{ baseValue := some merged }], indentString := indent }
+      match pb with
+      | some t => { rc with pbStack := rc.pbStack ++ [(t, rc.pbBinding)], pbBinding := some rc.pbStack.length }
+      | none => rc)
+    x
+    (fun saved rc =>
+      { rc with
+        pbStack := (if pb.isSome then rc.pbStack.dropLast else rc.pbStack),
+        pbBinding := saved.pbBinding,
+        blocks := saved.blocks,
+        currentTemplate := saved.currentTemplate,
+        indentString := saved.indentString })
 /-- `Output::write` : an empty segment reaches no writer call (`write_all` on an empty buffer) -/
 def write (s : Str) : RM Unit := fun rc out =>
   if s.isEmpty then .ok () rc out
@@ -412,7 +459,7 @@ def writeIndented (v indent : Str) : RM Unit := writeAll (indentedSegments inden
 /-- `indent_aware_write` -/
 def indentAwareWrite (v : Str) : RM Unit :=
   if v.isEmpty then pure () else do
-    modify (fun rc => { rc with contentProduced := true })
+    modifyAux (fun rc => { rc with contentProduced := true })
     let rc ← get
     if !startsWithNewline v && rc.indentBeforeWrite then
       match rc.indentString with
@@ -422,7 +469,7 @@ def indentAwareWrite (v : Str) : RM Unit :=
     | some ind => writeIndented v ind
     | none => write v
     let tn := endsWithNewline v
-    modify (fun rc => { rc with trailingNewline := tn, indentBeforeWrite := tn })
+    modifyAux (fun rc => { rc with trailingNewline := tn, indentBeforeWrite := tn })
 
 /-- `do_escape` -/
 def doEscape (reg : Registry) (rc : RC) (s : Str) : Str :=
@@ -839,11 +886,8 @@ mutual
         | .ok r => pure ⟨none, r⟩
         | .error e => throwR e
       else do
-        let rc ← get
-        let de := rc.disableEscape
-        modify (fun rc => { rc with disableEscape := true })
-        let (_, s) ← RM.captured (callHelper reg root fuel d h)
-        modify (fun rc => { rc with disableEscape := de })
+        -- escaping is switched off for the duration of the call and put back to what it was
+        let (_, s) ← RM.escOffSaved (RM.captured (callHelper reg root fuel d h))
         pure ⟨none, .derived (.str s)⟩
 
   /-- `HelperDef::call` of helper `d` -/
@@ -882,11 +926,10 @@ mutual
                 let holder := if param.contextPath.isSome then Holder.path [] else Holder.value param.json
                 { block with blockParams := [(bp, holder)] }
               | none => block
-            modify (fun rc => { rc with blocks := block :: rc.blocks })
-            match h.template with
-            | some t => renderTemplate reg root fuel t
-            | none => pure ()
-            modify (fun rc => { rc with blocks := rc.blocks.drop 1 })
+            RM.withBlock block
+              (match h.template with
+               | some t => renderTemplate reg root fuel t
+               | none => pure ())
           else match h.inverse with
             | some t => renderTemplate reg root fuel t
             | none => if reg.strict then throw (strictError param.relPath) else pure ()
@@ -903,20 +946,18 @@ mutual
               | none => if reg.strict then throw (strictError value.relPath) else pure ()
             match value.json with
             | .arr list =>
-              if !list.isEmpty || h.inverse.isNone then do
-                modify (fun rc => { rc with blocks := createBlock value :: rc.blocks })
+              if !list.isEmpty || h.inverse.isNone then
                 let items := list.toList
-                eachLoop reg root fuel t h value.contextPath items.length
-                  (items.zipIdx.map (fun (v, i) => (i, none, natToStr i, v)))
-                modify (fun rc => { rc with blocks := rc.blocks.drop 1 })
+                RM.withBlock (createBlock value)
+                  (eachLoop reg root fuel t h value.contextPath items.length
+                    (items.zipIdx.map (fun (v, i) => (i, none, natToStr i, v))))
               else elseBranch
             | .obj o =>
-              if !o.isEmpty || h.inverse.isNone then do
-                modify (fun rc => { rc with blocks := createBlock value :: rc.blocks })
+              if !o.isEmpty || h.inverse.isNone then
                 let items := o.toList
-                eachLoop reg root fuel t h value.contextPath items.length
-                  (items.zipIdx.map (fun ((k, v), i) => (i, some k, k, v)))
-                modify (fun rc => { rc with blocks := rc.blocks.drop 1 })
+                RM.withBlock (createBlock value)
+                  (eachLoop reg root fuel t h value.contextPath items.length
+                    (items.zipIdx.map (fun ((k, v), i) => (i, some k, k, v))))
               else elseBranch
             | _ => elseBranch
       | .raw =>
@@ -955,7 +996,7 @@ mutual
       | .wr => write (((h.params[0]?).map (·.json.render)).getD [])
       | .counter => do
         let rc ← get
-        modify (fun rc => { rc with counter := rc.counter + 1 })
+        modifyAux (fun rc => { rc with counter := rc.counter + 1 })
         write (natToStr rc.counter)
       | _ => pure ()
 
@@ -988,10 +1029,10 @@ mutual
         -- call_indent_aware
         let ib := rc.indentBeforeWrite
         let cp := rc.contentProduced
-        modify (fun rc => { rc with contentProduced := false,
-                                    indentBeforeWrite := ib || (ht.indentBeforeWrite && rc.trailingNewline) })
+        modifyAux (fun rc =>
+          { rc with contentProduced := false, indentBeforeWrite := ib || (ht.indentBeforeWrite && rc.trailingNewline) })
         callHelper reg root fuel d h
-        modify (fun rc =>
+        modifyAux (fun rc =>
           if rc.contentProduced then { rc with indentBeforeWrite := rc.trailingNewline }
           else { rc with contentProduced := cp, indentBeforeWrite := ib })
 
@@ -1002,10 +1043,9 @@ mutual
       match e with
       | .raw v => indentAwareWrite v
       | .expr ht => renderExpression reg root fuel ht
-      | .html ht => do
-        modify (fun rc => { rc with disableEscape := true })
-        renderExpression reg root fuel ht
-        modify (fun rc => { rc with disableEscape := false })
+      | .html ht =>
+        -- `set_disable_escape(true)` … `set_disable_escape(false)` : switched ON again afterwards, whatever it was
+        RM.escOffReset (renderExpression reg root fuel ht)
       | .block ht => renderHelper reg root fuel ht
       | .decoExpr dt | .decoBlock dt => evalDecorator reg root fuel dt
       | .partialExpr dt | .partialBlock dt => do
@@ -1013,11 +1053,11 @@ mutual
         let rc ← get
         let ib := rc.indentBeforeWrite
         let cp := rc.contentProduced
-        modify (fun rc => { rc with
+        modifyAux (fun rc => { rc with
           indentBeforeWrite := ib || (dt.indentBeforeWrite && (rc.trailingNewline || dt.indent.isSome)),
           contentProduced := false })
         expandPartial reg root fuel di
-        modify (fun rc =>
+        modifyAux (fun rc =>
           if rc.contentProduced then { rc with indentBeforeWrite := rc.trailingNewline }
           else { rc with contentProduced := cp, indentBeforeWrite := ib })
       | .comment _ => pure ()
@@ -1062,14 +1102,14 @@ mutual
           | some name =>
             match di.template with
             | none => throwR .blockContentRequired
-            | some t => modify (fun rc => { rc with partials := hashInsert rc.partials name t })
+            | some t => modifyAux (fun rc => { rc with partials := hashInsert rc.partials name t })
       | some .setctx =>
         match di.params[0]? with
         | none => throwR (.paramNotFoundForIndex (str "setctx") 0)
-        | some p => modify (fun rc => { rc with modifiedCtx := some p.json })
+        | some p => modifyAux (fun rc => { rc with modifiedCtx := some p.json })
       | some .sethelper =>
         match (di.params[0]?).bind (·.json.asStr?), (di.params[1]?).bind (·.json.asStr?) with
-        | some n, some tag => modify (fun rc => { rc with localHelpers := hashInsert rc.localHelpers n (.mark tag) })
+        | some n, some tag => modifyAux (fun rc => { rc with localHelpers := hashInsert rc.localHelpers n (.mark tag) })
         | _, _ => throwR (.invalidParamType (str "String"))
 
   /-- `Evaluable for Template` : evaluate the decorators of a template (used for partial-block bodies) -/
@@ -1097,10 +1137,10 @@ mutual
     | fuel + 1, t => do
       let rc ← get
       let nameBefore := rc.currentTemplate
-      modify (fun rc => { rc with currentTemplate := t.name })
+      modifyAux (fun rc => { rc with currentTemplate := t.name })
       renderElems reg root fuel t.name t.elements t.mapping
       -- an unnamed inner template (block body, else branch) hands back to the template it is part of
-      if t.name.isNone then modify (fun rc => { rc with currentTemplate := nameBefore }) else pure ()
+      if t.name.isNone then modifyAux (fun rc => { rc with currentTemplate := nameBefore }) else pure ()
 
   /-- `partial::expand_partial` -/
   def expandPartial (reg : Registry) (root : Json) : Nat → DecoI → RM Unit
@@ -1131,12 +1171,6 @@ mutual
         match found with
         | none => throwR (.partialNotFound tname)
         | some partialT => do
-          -- what `@partial-block` denotes is a property of this inclusion: it is put back afterwards
-          let bindingBefore := rc.pbBinding
-          if tname == PARTIAL_BLOCK then
-            -- inside the body `@partial-block` means what it meant where the body was written
-            modify (fun rc => { rc with pbBinding := (rc.pbBinding.bind (fun i => rc.pbStack[i]?)).bind (·.2) })
-          else pure ()
           let hashCtx := d.hash.map (fun (k, v) => (k, v.json))
           let merged ← (match d.params[0]? with
             | some p =>
@@ -1148,21 +1182,10 @@ mutual
             | none => do
               let r ← evaluate2 root (.relative [] [])
               pure (mergeJson r.asJson hashCtx))
-          let rc ← get
-          let currentBlocks := rc.blocks
-          modify (fun rc =>
-            let rc := { rc with blocks := [{ baseValue := some merged }], indentString := d.indent }
-            match d.template with
-            | some pb => { rc with pbStack := rc.pbStack ++ [(pb, rc.pbBinding)], pbBinding := some rc.pbStack.length }
-            | none => rc)
-          -- the partial is rendered; its result is examined only after the cleanup
-          RM.withCleanup (renderTemplate reg root fuel partialT) (fun rc =>
-              { rc with
-                pbStack := (if d.template.isSome then rc.pbStack.dropLast else rc.pbStack),
-                pbBinding := bindingBefore,
-                blocks := currentBlocks,
-                currentTemplate := currentBefore,
-                indentString := indentBefore })
+          -- the partial is rendered in its own scope; what `@partial-block` denotes, the scope stack, the
+          -- template name and the indentation are properties of this inclusion: they are put back afterwards
+          -- (the result is examined only after that cleanup)
+          RM.partialScope (tname == PARTIAL_BLOCK) merged d.indent d.template (renderTemplate reg root fuel partialT)
 end
 
 end Hbs
